@@ -68,9 +68,29 @@ class Capture(logging.Handler):
 _counter = itertools.count()
 
 
+HUNG = [0]
+
+
 def execute(case):
     """what the stack of the case does; a stack that cannot even be built (a constructor of the
     code under test raises on a legal stack) is a stack through which nothing is written or read"""
+    import signal
+
+    def hung(signum, frame):
+        HUNG[0] += 1
+        raise TimeoutError("a read or write through the stack did not return in time")
+
+    # (the histories are run in this very thread: a stack that blocks for ever - a lock taken
+    #  twice, say - would hang the check; a blocked lock acquisition can be interrupted)
+    armed = False
+    try:
+        old_handler = signal.signal(signal.SIGALRM, hung)
+        # (generous at first; once stacks have been seen to block, the rest is not waited for long)
+        t_ = 3.0 if HUNG[0] < 3 else 0.05
+        signal.setitimer(signal.ITIMER_REAL, t_, t_)   # (again and again: every blocking call of the history)
+        armed = True
+    except ValueError:  # not the main thread
+        pass
     try:
         return execute_(case)
     except Exception as ex:  # noqa: the exception is the observation
@@ -84,6 +104,10 @@ def execute(case):
         if not events:
             events.append({"e": "Read", "d": 777777, "s": 777777, "u": 777777, "a": 777777, "L": [{"sd": 0, "pend": 0}] * n})
         return {"stack": case["stack"], "pool": case["pool"], "seed": case.get("seed", 0), "events": events, "raised": type(ex).__name__}
+    finally:
+        if armed:
+            signal.setitimer(signal.ITIMER_REAL, 0)
+            signal.signal(signal.SIGALRM, old_handler)
 
 
 def execute_(case):
